@@ -96,6 +96,10 @@ class Abstractor:
             # chained comparison = conjunction of the links
             parts = []
             left = e.left
+            operands = [e.left] + list(e.comparators)
+            if len(e.ops) > 1 and all(isinstance(op, ast.Is) for op in e.ops) and any(self._is_none(x) for x in operands):
+                # a is b is None: None is a singleton, so every operand is None
+                return mk_and([self._link(x, ast.Is(), ast.Constant(value=None)) for x in operands if not self._is_none(x)])
             for op, right in zip(e.ops, e.comparators):
                 parts.append(self._link(left, op, right))
                 left = right
